@@ -1,1 +1,536 @@
-//! iso engine (filled in later)
+//! iso engine: master/worker process isolation for byte-level fuzzing.
+//!
+//! `worker_main` (child): reads frames `[u32 target][u32 len][bytes]` on stdin,
+//! runs the target on a thread with a fixed stack, answers one line per input.
+//! A tracking global allocator records the largest single request and the peak
+//! of live bytes per input and *refuses* (returns null, after writing an
+//! `X\tOVERSIZE` marker) any single request above the per-input limit, so the
+//! machine never commits the 30–270 GB a hostile count field can ask for.
+//!
+//! `run_master` (parent): feeds inputs to N workers, knows which input a dead
+//! worker was processing, classifies the death, respawns.
+
+use std::alloc::{GlobalAlloc, Layout, System};
+use std::io::{BufRead, BufReader, Read, Write};
+use std::process::{Child, ChildStdin, Command, Stdio};
+use std::sync::Mutex;
+use std::sync::atomic::{AtomicBool, AtomicUsize, Ordering};
+use std::sync::mpsc::{Receiver, RecvTimeoutError, channel};
+use std::time::{Duration, Instant};
+
+// ---------------------------------------------------------------- allocator
+
+pub struct Tracking;
+
+static ENABLED: AtomicBool = AtomicBool::new(false);
+static LIMIT_SINGLE: AtomicUsize = AtomicUsize::new(usize::MAX);
+static MAX_SINGLE: AtomicUsize = AtomicUsize::new(0);
+static LIVE: AtomicUsize = AtomicUsize::new(0);
+static PEAK: AtomicUsize = AtomicUsize::new(0);
+static REFUSED: AtomicUsize = AtomicUsize::new(0);
+
+fn note_request(size: usize) -> bool {
+    // returns false when the request must be refused
+    MAX_SINGLE.fetch_max(size, Ordering::Relaxed);
+    if size > LIMIT_SINGLE.load(Ordering::Relaxed) {
+        REFUSED.fetch_max(size, Ordering::Relaxed);
+        // async-signal-safe style marker straight to fd 1
+        let mut buf = [0u8; 48];
+        let s = fmt_marker(&mut buf, size);
+        unsafe {
+            libc::write(1, s.as_ptr() as *const libc::c_void, s.len());
+        }
+        return false;
+    }
+    true
+}
+
+fn fmt_marker(buf: &mut [u8; 48], size: usize) -> &[u8] {
+    let pre = b"X\tOVERSIZE\t";
+    buf[..pre.len()].copy_from_slice(pre);
+    let mut digits = [0u8; 24];
+    let mut n = size;
+    let mut i = 0;
+    loop {
+        digits[i] = b'0' + (n % 10) as u8;
+        n /= 10;
+        i += 1;
+        if n == 0 {
+            break;
+        }
+    }
+    let mut p = pre.len();
+    while i > 0 {
+        i -= 1;
+        buf[p] = digits[i];
+        p += 1;
+    }
+    buf[p] = b'\n';
+    &buf[..p + 1]
+}
+
+unsafe impl GlobalAlloc for Tracking {
+    unsafe fn alloc(&self, layout: Layout) -> *mut u8 {
+        if ENABLED.load(Ordering::Relaxed) {
+            if !note_request(layout.size()) {
+                return std::ptr::null_mut();
+            }
+            let l = LIVE.fetch_add(layout.size(), Ordering::Relaxed) + layout.size();
+            PEAK.fetch_max(l, Ordering::Relaxed);
+        }
+        unsafe { System.alloc(layout) }
+    }
+    unsafe fn alloc_zeroed(&self, layout: Layout) -> *mut u8 {
+        if ENABLED.load(Ordering::Relaxed) {
+            if !note_request(layout.size()) {
+                return std::ptr::null_mut();
+            }
+            let l = LIVE.fetch_add(layout.size(), Ordering::Relaxed) + layout.size();
+            PEAK.fetch_max(l, Ordering::Relaxed);
+        }
+        unsafe { System.alloc_zeroed(layout) }
+    }
+    unsafe fn dealloc(&self, ptr: *mut u8, layout: Layout) {
+        if ENABLED.load(Ordering::Relaxed) {
+            // saturating: blocks allocated before tracking was enabled may be freed now
+            let _ = LIVE.fetch_update(Ordering::Relaxed, Ordering::Relaxed, |v| Some(v.saturating_sub(layout.size())));
+        }
+        unsafe { System.dealloc(ptr, layout) }
+    }
+    unsafe fn realloc(&self, ptr: *mut u8, layout: Layout, new_size: usize) -> *mut u8 {
+        if ENABLED.load(Ordering::Relaxed) {
+            if !note_request(new_size) {
+                return std::ptr::null_mut();
+            }
+            if new_size >= layout.size() {
+                let d = new_size - layout.size();
+                let l = LIVE.fetch_add(d, Ordering::Relaxed) + d;
+                PEAK.fetch_max(l, Ordering::Relaxed);
+            } else {
+                let d = layout.size() - new_size;
+                let _ = LIVE.fetch_update(Ordering::Relaxed, Ordering::Relaxed, |v| Some(v.saturating_sub(d)));
+            }
+        }
+        unsafe { System.realloc(ptr, layout, new_size) }
+    }
+}
+
+#[global_allocator]
+static GLOBAL: Tracking = Tracking;
+
+// ---------------------------------------------------------------- protocol
+
+/// What a target reports about one input.
+#[derive(Debug, Clone, Default)]
+pub struct Outcome {
+    /// short class string, e.g. "ok", "err:BadMagic"
+    pub class: String,
+    /// the input got past the magic / minimum-size gate
+    pub gate: bool,
+    /// semantic failure found by an in-target oracle: (key suffix, message)
+    pub fail: Option<(String, String)>,
+    /// the input was accepted (parse returned Ok) — for C08 bookkeeping
+    pub accepted: bool,
+}
+
+impl Outcome {
+    pub fn ok() -> Self {
+        Outcome { class: "ok".into(), gate: true, accepted: true, fail: None }
+    }
+    pub fn err(class: impl Into<String>, gate: bool) -> Self {
+        Outcome { class: class.into(), gate, accepted: false, fail: None }
+    }
+}
+
+pub struct Target {
+    pub name: &'static str,
+    pub run: fn(&[u8]) -> Outcome,
+    /// documented decompression cap applies (limit = 1 GiB + 64 MiB) instead of max(64 MiB, 1024·len)
+    pub decompresses: bool,
+}
+
+pub fn single_limit(t: &Target, len: usize) -> usize {
+    if t.decompresses {
+        (1usize << 30) + (64 << 20)
+    } else {
+        (64usize << 20).max(1024usize.saturating_mul(len))
+    }
+}
+
+/// live-bytes ceiling: generous multiple of the single-request limit
+pub fn live_limit(t: &Target, len: usize) -> usize {
+    single_limit(t, len).saturating_mul(4)
+}
+
+fn thread_cpu_us() -> u64 {
+    let mut ts = libc::timespec { tv_sec: 0, tv_nsec: 0 };
+    unsafe {
+        libc::clock_gettime(libc::CLOCK_THREAD_CPUTIME_ID, &mut ts);
+    }
+    ts.tv_sec as u64 * 1_000_000 + ts.tv_nsec as u64 / 1000
+}
+
+fn sanitize(s: &str) -> String {
+    s.chars().map(|c| if c == '\t' || c == '\n' || c == '\r' { ' ' } else { c }).take(400).collect()
+}
+
+/// Child process main loop. Never returns.
+pub fn worker_main(targets: &'static [Target]) -> ! {
+    crate::util::install_panic_capture();
+    let stdin = std::io::stdin();
+    let mut inp = stdin.lock();
+    let stdout = std::io::stdout();
+    loop {
+        let mut hdr = [0u8; 8];
+        if inp.read_exact(&mut hdr).is_err() {
+            std::process::exit(0);
+        }
+        let ti = u32::from_le_bytes(hdr[0..4].try_into().unwrap()) as usize;
+        let len = u32::from_le_bytes(hdr[4..8].try_into().unwrap()) as usize;
+        let mut data = vec![0u8; len];
+        if inp.read_exact(&mut data).is_err() {
+            std::process::exit(0);
+        }
+        let Some(t) = targets.get(ti) else {
+            std::process::exit(3);
+        };
+        let run = t.run;
+        let limit = single_limit(t, len);
+        // run on a thread with a fixed 8 MiB stack
+        let handle = std::thread::Builder::new()
+            .stack_size(8 << 20)
+            .spawn(move || {
+                LIMIT_SINGLE.store(limit, Ordering::Relaxed);
+                MAX_SINGLE.store(0, Ordering::Relaxed);
+                LIVE.store(0, Ordering::Relaxed);
+                PEAK.store(0, Ordering::Relaxed);
+                REFUSED.store(0, Ordering::Relaxed);
+                let c0 = thread_cpu_us();
+                ENABLED.store(true, Ordering::SeqCst);
+                let r = crate::util::catch_panic(|| run(&data));
+                ENABLED.store(false, Ordering::SeqCst);
+                let cpu = thread_cpu_us() - c0;
+                (r, cpu)
+            })
+            .expect("spawn target thread");
+        let (r, cpu) = match handle.join() {
+            Ok(x) => x,
+            Err(_) => std::process::exit(4),
+        };
+        let max_single = MAX_SINGLE.load(Ordering::Relaxed);
+        let peak = PEAK.load(Ordering::Relaxed);
+        let refused = REFUSED.load(Ordering::Relaxed);
+        let line = match r {
+            Ok(o) => {
+                let (st, key, msg) = match &o.fail {
+                    Some((k, m)) => ("FAIL", k.clone(), m.clone()),
+                    None => ("OK", String::new(), String::new()),
+                };
+                format!(
+                    "R\t{st}\t{}\t{}\t{}\t{max_single}\t{peak}\t{refused}\t{cpu}\t{}\t{}\n",
+                    sanitize(&o.class),
+                    o.gate as u8,
+                    o.accepted as u8,
+                    sanitize(&key),
+                    sanitize(&msg)
+                )
+            }
+            Err(p) => format!(
+                "R\tPANIC\tpanic\t1\t0\t{max_single}\t{peak}\t{refused}\t{cpu}\t{}:{}\t{}\n",
+                sanitize(&p.file),
+                sanitize(&p.norm_msg()),
+                sanitize(&format!("{}:{}: {}", p.file, p.line, p.msg))
+            ),
+        };
+        let mut so = stdout.lock();
+        let _ = so.write_all(line.as_bytes());
+        let _ = so.flush();
+    }
+}
+
+// ---------------------------------------------------------------- master
+
+#[derive(Debug, Clone, PartialEq, Eq)]
+pub enum Status {
+    Ok,
+    /// in-target semantic oracle failed
+    Fail,
+    Panic,
+    /// worker died; `signal` if killed by one; `stderr_tail` for classification
+    Died,
+    /// no answer within the CPU budget (twice)
+    Hang,
+}
+
+#[derive(Debug, Clone)]
+pub struct IsoResult {
+    pub status: Status,
+    pub class: String,
+    pub gate: bool,
+    pub accepted: bool,
+    pub max_single: usize,
+    pub peak_live: usize,
+    /// size of a refused (oversize) request, 0 if none
+    pub refused: usize,
+    pub cpu_us: u64,
+    pub key: String,
+    pub msg: String,
+}
+
+pub struct IsoInput {
+    pub target: usize,
+    pub data: Vec<u8>,
+    /// how it was generated (goes to the replay / sample)
+    pub origin: String,
+}
+
+struct Worker {
+    child: Child,
+    stdin: ChildStdin,
+    lines: Receiver<String>,
+    stderr_path: std::path::PathBuf,
+}
+
+fn spawn_worker(exe: &std::path::Path, args: &[String], idx: usize) -> std::io::Result<Worker> {
+    let stderr_path = std::env::temp_dir().join(format!("vh-iso-{}-{}.stderr", std::process::id(), idx));
+    let errf = std::fs::File::create(&stderr_path)?;
+    let mut child = Command::new(exe)
+        .args(args)
+        .stdin(Stdio::piped())
+        .stdout(Stdio::piped())
+        .stderr(Stdio::from(errf))
+        .spawn()?;
+    let stdin = child.stdin.take().unwrap();
+    let stdout = child.stdout.take().unwrap();
+    let (tx, rx) = channel();
+    std::thread::spawn(move || {
+        let mut r = BufReader::new(stdout);
+        loop {
+            let mut line = String::new();
+            match r.read_line(&mut line) {
+                Ok(0) | Err(_) => break,
+                Ok(_) => {
+                    if tx.send(line).is_err() {
+                        break;
+                    }
+                }
+            }
+        }
+    });
+    Ok(Worker { child, stdin, lines: rx, stderr_path })
+}
+
+fn proc_cpu_secs(pid: u32) -> Option<f64> {
+    let s = std::fs::read_to_string(format!("/proc/{pid}/stat")).ok()?;
+    let rest = &s[s.rfind(')')? + 2..];
+    let f: Vec<&str> = rest.split_whitespace().collect();
+    // fields after ") ": state(0) ppid(1) ... utime is field 14 overall -> index 11, stime index 12
+    let ut: f64 = f.get(11)?.parse().ok()?;
+    let st: f64 = f.get(12)?.parse().ok()?;
+    let hz = unsafe { libc::sysconf(libc::_SC_CLK_TCK) } as f64;
+    Some((ut + st) / hz)
+}
+
+fn parse_line(line: &str) -> Option<IsoResult> {
+    let f: Vec<&str> = line.trim_end_matches('\n').split('\t').collect();
+    if f.len() < 11 || f[0] != "R" {
+        return None;
+    }
+    let status = match f[1] {
+        "OK" => Status::Ok,
+        "FAIL" => Status::Fail,
+        "PANIC" => Status::Panic,
+        _ => return None,
+    };
+    Some(IsoResult {
+        status,
+        class: f[2].to_string(),
+        gate: f[3] == "1",
+        accepted: f[4] == "1",
+        max_single: f[5].parse().ok()?,
+        peak_live: f[6].parse().ok()?,
+        refused: f[7].parse().ok()?,
+        cpu_us: f[8].parse().ok()?,
+        key: f[9].to_string(),
+        msg: f[10].to_string(),
+    })
+}
+
+/// Run one input in worker `w` with a CPU budget. Returns (result, worker_still_alive).
+fn run_one(w: &mut Worker, inp: &IsoInput, cpu_budget_s: f64) -> (IsoResult, bool) {
+    let mut frame = Vec::with_capacity(8 + inp.data.len());
+    frame.extend_from_slice(&(inp.target as u32).to_le_bytes());
+    frame.extend_from_slice(&(inp.data.len() as u32).to_le_bytes());
+    frame.extend_from_slice(&inp.data);
+    let write_ok = w.stdin.write_all(&frame).and_then(|_| w.stdin.flush()).is_ok();
+    let pid = w.child.id();
+    let cpu0 = proc_cpu_secs(pid).unwrap_or(0.0);
+    let t0 = Instant::now();
+    let mut refused = 0usize;
+    let died = |w: &mut Worker, refused: usize, why: &str| -> IsoResult {
+        let _ = w.child.kill();
+        let st = w.child.wait().ok();
+        let sig = st.and_then(|s| std::os::unix::process::ExitStatusExt::signal(&s));
+        let mut tail = String::new();
+        if let Ok(mut f) = std::fs::File::open(&w.stderr_path) {
+            let mut s = String::new();
+            let _ = f.read_to_string(&mut s);
+            let n = s.len().saturating_sub(600);
+            let mut cut = n;
+            while !s.is_char_boundary(cut) {
+                cut += 1;
+            }
+            tail = s[cut..].replace('\n', " | ");
+        }
+        let kind = if refused > 0 {
+            "oversize-alloc".to_string()
+        } else if tail.contains("overflowed its stack") {
+            "stack-overflow".to_string()
+        } else if tail.contains("memory allocation of") {
+            "alloc-failure".to_string()
+        } else {
+            format!("died-signal-{}", sig.map(|s| s.to_string()).unwrap_or_else(|| "none".into()))
+        };
+        IsoResult {
+            status: Status::Died,
+            class: kind.clone(),
+            gate: true,
+            accepted: false,
+            max_single: refused,
+            peak_live: 0,
+            refused,
+            cpu_us: 0,
+            key: kind,
+            msg: format!("{why}; signal={sig:?}; stderr: {tail}"),
+        }
+    };
+    if !write_ok {
+        return (died(w, 0, "worker closed stdin"), false);
+    }
+    loop {
+        match w.lines.recv_timeout(Duration::from_millis(500)) {
+            Ok(line) => {
+                if let Some(rest) = line.strip_prefix("X\tOVERSIZE\t") {
+                    refused = refused.max(rest.trim().parse().unwrap_or(1));
+                    continue;
+                }
+                if let Some(mut r) = parse_line(&line) {
+                    r.refused = r.refused.max(refused);
+                    return (r, true);
+                }
+                // unknown chatter on stdout: ignore
+            }
+            Err(RecvTimeoutError::Timeout) => {
+                let cpu = proc_cpu_secs(pid).unwrap_or(0.0) - cpu0;
+                if cpu > cpu_budget_s || t0.elapsed().as_secs_f64() > cpu_budget_s * 30.0 + 120.0 {
+                    let _ = w.child.kill();
+                    let _ = w.child.wait();
+                    return (
+                        IsoResult {
+                            status: Status::Hang,
+                            class: "hang".into(),
+                            gate: true,
+                            accepted: false,
+                            max_single: 0,
+                            peak_live: 0,
+                            refused,
+                            cpu_us: (cpu * 1e6) as u64,
+                            key: "hang".into(),
+                            msg: format!("no answer after {cpu:.1} CPU-s / {:.0} wall-s", t0.elapsed().as_secs_f64()),
+                        },
+                        false,
+                    );
+                }
+            }
+            Err(RecvTimeoutError::Disconnected) => {
+                return (died(w, refused, "worker exited while processing the input"), false);
+            }
+        }
+    }
+}
+
+pub struct MasterConfig {
+    pub exe: std::path::PathBuf,
+    pub worker_args: Vec<String>,
+    pub workers: usize,
+    pub cpu_budget_s: f64,
+    pub recheck_budget_s: f64,
+}
+
+/// Feed every input to a pool of workers; `on_result` is called from worker
+/// threads (must be Sync). A Hang is re-run once alone with the larger budget
+/// and only reported as Hang if it hangs again.
+pub fn run_master<I, F>(cfg: &MasterConfig, inputs: I, on_result: F) -> Result<(), String>
+where
+    I: Iterator<Item = IsoInput> + Send,
+    F: Fn(&IsoInput, &IsoResult) + Sync,
+{
+    let it = Mutex::new(inputs);
+    let err: Mutex<Option<String>> = Mutex::new(None);
+    // targets with a confirmed hang: later candidates are not re-checked at the large budget
+    let confirmed_hang: Mutex<std::collections::HashSet<usize>> = Mutex::new(Default::default());
+    std::thread::scope(|sc| {
+        for idx in 0..cfg.workers.max(1) {
+            let it = &it;
+            let err = &err;
+            let on_result = &on_result;
+            let confirmed_hang = &confirmed_hang;
+            sc.spawn(move || {
+                let mut w: Option<Worker> = None;
+                loop {
+                    let next = { it.lock().unwrap().next() };
+                    let Some(inp) = next else { break };
+                    if w.is_none() {
+                        match spawn_worker(&cfg.exe, &cfg.worker_args, idx) {
+                            Ok(x) => w = Some(x),
+                            Err(e) => {
+                                *err.lock().unwrap() = Some(format!("cannot spawn worker: {e}"));
+                                return;
+                            }
+                        }
+                    }
+                    let (mut r, alive) = run_one(w.as_mut().unwrap(), &inp, cfg.cpu_budget_s);
+                    if !alive {
+                        if let Some(old) = w.take() {
+                            let _ = std::fs::remove_file(&old.stderr_path);
+                        }
+                    }
+                    if r.status == Status::Hang && !confirmed_hang.lock().unwrap().contains(&inp.target) {
+                        // deterministic re-run, alone, larger budget
+                        match spawn_worker(&cfg.exe, &cfg.worker_args, idx) {
+                            Ok(mut w2) => {
+                                let (r2, alive2) = run_one(&mut w2, &inp, cfg.recheck_budget_s);
+                                if alive2 {
+                                    let _ = w2.child.kill();
+                                    let _ = w2.child.wait();
+                                }
+                                let _ = std::fs::remove_file(&w2.stderr_path);
+                                r = r2;
+                                if r.status != Status::Hang {
+                                    r.class = format!("slow:{}", r.class);
+                                } else {
+                                    confirmed_hang.lock().unwrap().insert(inp.target);
+                                }
+                            }
+                            Err(e) => {
+                                *err.lock().unwrap() = Some(format!("cannot spawn worker: {e}"));
+                                return;
+                            }
+                        }
+                    }
+                    on_result(&inp, &r);
+                }
+                if let Some(mut old) = w.take() {
+                    drop(old.stdin);
+                    let _ = old.child.kill();
+                    let _ = old.child.wait();
+                    let _ = std::fs::remove_file(&old.stderr_path);
+                }
+            });
+        }
+    });
+    match err.into_inner().unwrap() {
+        Some(e) => Err(e),
+        None => Ok(()),
+    }
+}
